@@ -16,10 +16,11 @@ class Canon(object):
     """Rebuilds a term under the assumptions of `st`: every Fin restricted to the state's
     domains, decided ITEs pruned, polynomials re-normalised."""
 
-    def __init__(self, ev, st):
+    def __init__(self, ev, st, subst=None):
         self.ev = ev
         self.st = st
         self.memo = {}
+        self.subst = subst or {}
 
     def __call__(self, t):
         return self.term(t)
@@ -32,6 +33,10 @@ class Canon(object):
         k = t.sortkey()
         if k in self.memo:
             return self.memo[k]
+        if k in self.subst:
+            r = self.subst[k]
+            self.memo[k] = r
+            return r
         r = self._term(t)
         self.memo[k] = r
         return r
@@ -88,6 +93,10 @@ class Canon(object):
                 c = args[1].const_value()
                 num = args[0] if isinstance(args[0], P) else ev.to_poly(None, args[0], None)
                 return P(dict((m, x / c) for m, x in num.terms.items()), T.kind_join(num.kind, args[1].kind))
+            if t.op in ("eq", "streq") and len(args) == 2 and all(isinstance(a, Const) for a in args):
+                return Const(args[0].v == args[1].v)
+            if t.op == "truth" and len(args) == 1 and isinstance(args[0], Const):
+                return Const(bool(truth_const(args[0].v)))
             if t.op == "ind":
                 d = None
                 try:
